@@ -1,7 +1,7 @@
 (* One entry point for the correspondence check: a request (an S-expression naming a stage and its input) is
    decoded, run through the model, and the observable encoded back.  Used extracted (driver/) and inside Coq. *)
 From Coq Require Import List String Ascii Bool NArith.
-From Yae Require Import Base.Sexp Model.Ty Model.Unify Model.Lexer Model.Literal Model.Cst Model.Pratt Model.Desugar.
+From Yae Require Import Base.Sexp Model.Ty Model.Unify Model.Lexer Model.Literal Model.Cst Model.Pratt Model.Desugar Model.Check.
 Import ListNotations.
 Open Scope string_scope.
 
@@ -110,6 +110,26 @@ Definition run_strlit (args : list sexp) : sexp :=
   | _ => bad
   end.
 
+(* (check fenv tenv expr): expr is the parsed (sugared) tree; the facade desugars first *)
+Definition run_check (args : list sexp) : sexp :=
+  match args with
+  | [fe; te; e] =>
+      match dec_fenv fe, dec_tenv te, dec_expr e with
+      | Some fe', Some te', Some e' =>
+          match desugar e' with
+          | None => A "err"
+          | Some d =>
+              match check fe' te' big_fuel 1000000000 d with
+              | COk (a, t) => L [A "ok"; enc_ty t; enc_aexpr a]
+              | CErr => A "err"
+              | CFuel => A "fuel"
+              end
+          end
+      | _, _, _ => bad
+      end
+  | _ => bad
+  end.
+
 Definition dispatch (req : sexp) : sexp :=
   match req with
   | L (A tag :: args) =>
@@ -123,6 +143,7 @@ Definition dispatch (req : sexp) : sexp :=
       else if tag =? "parsetoks" then run_parsetoks args
       else if tag =? "desugar" then run_desugar args
       else if tag =? "strlit" then run_strlit args
+      else if tag =? "check" then run_check args
       else bad
   | _ => bad
   end.
